@@ -8,12 +8,52 @@ HERE = os.path.dirname(os.path.dirname(os.path.abspath(__file__)))
 BASELINE = "cd /repo && /venv/bin/python -m pytest -ra -q -p no:cacheprovider --timeout=900 --continue-on-collection-errors"
 
 # id -> (level, technique, level text, level note, design ref)
+TB = "Trusts CPython 3.12, hashlib/hmac, the reference models under vr/ref (self-checked on published vectors at start-up; a failing self-check makes the run INCONCLUSIVE) and, where named, OpenSSL via cryptography and icontract. Decides only the executions produced: held = no refutation among them."
+
+def C(level, tech, text, ref, note=TB):
+    return (level, tech, text, note, ref)
+
 CHECKS = {
-    "C01": ("exploration",
-            "runtime monitoring: reference-model + OpenSSL oracles and icontract postconditions on the real sign/DER functions, scripted-nonce boundary workloads, nonce-reuse history checker, exhaustive small-curve sweeps",
-            "Every signature the real code produces in the run is decided by three oracles (reference ECDSA equation, OpenSSL, BIP66 strict-DER parser) plus the library's own verifier; boundary classes of s/r/digest/draws are constructed, not waited for; small curves are swept exhaustively. Held = no refutation among the executions produced.",
-            "Trusts CPython, hashlib, OpenSSL via cryptography, icontract, vr/ref/secp.py+der.py (cross-checked against OpenSSL on every case). 2^-128 classes only on retargeted small curves.",
-            "DESIGN.md §4 C01"),
+ "C01": C("exploration", "runtime monitoring: reference-ECDSA/OpenSSL/BIP66 oracles + icontract postconditions on real sign/DER/sig, scripted-nonce boundary workloads, nonce-reuse history checker, exhaustive small-curve sweeps",
+          "Every signature produced in the run is decided by the reference equation, OpenSSL, a strict-DER parser and the library verifier; rare classes of s/r/digest/draws are constructed by solving for the key; (key,digest,draw) spaces of small retargeted curves are swept completely.", "DESIGN.md section 4 C01"),
+ "C02": C("exploration", "runtime monitoring: reference verification equation as oracle over valid signatures and 24 mutation classes; exhaustive (r,s,P,z) sweeps on small curves; ensure_sig_low_s output monitor",
+          "Library verdict (OK vs anything else) compared with the equation on every generated/mutated tuple; all tuples of a small curve enumerated so that x(R)>=n, R=infinity and every range boundary occur thousands of times.", "DESIGN.md section 4 C02"),
+ "C03": C("exploration", "runtime monitoring: independent Jacobian EC + OpenSSL oracle, icontract closure postconditions on point_add/point_scalar_mul, scripted RNG for key generation, exhaustive small-curve group tables",
+          "Real group operations compared with an independent implementation on boundary scalars/pairs, algebraic identities, all private-key candidates; all pairs/scalars/triples of small curves.", "DESIGN.md section 4 C03"),
+ "C04": C("exploration", "runtime monitoring: reference serialiser/hasher over generator fields as oracle for tx_deser ids under trailing-data classes and inside blocks; icontract postcondition on tx_deser for indirect callers",
+          "ids, raw bytes and leftover reported by the real parser compared with hashes of the reference serialisation of the generated fields, alone / with 8 trailing-data classes / at every block position.", "DESIGN.md section 4 C04"),
+ "C05": C("exploration", "runtime monitoring: byte-exact reference serialiser/parser oracle over grammar-generated transactions; exhaustive CompactSize sweep; icontract postcondition on compact_size_uint",
+          "Library serialisation compared byte for byte with the reference, parse compared field by field, re-serialisation compared; CompactSize on every integer to 2^16+2 and around every power of two.", "DESIGN.md section 4 C05"),
+ "C06": C("exploration", "runtime monitoring: BIP173/BIP350 reference decoder as verdict oracle over the full encode product and exhaustive single / sampled double substitutions, structural mutations and arbitrary bytes; exception monitor on predicates",
+          "Encoder output compared with the reference encoding for every allowed (network, version, length); is_segwit_addr verdict compared with the reference on ~3e5 derived strings; predicates must return bool.", "DESIGN.md section 4 C06"),
+ "C07": C("exploration", "runtime monitoring: independent long-division Base58/Base58Check oracle over exhaustive short inputs, boundary values and mutated encodings",
+          "Round trips and accept/reject verdicts compared with the reference for all byte strings of length <=2, all alphabet strings of length <=3 and ~2e5 sampled/mutated strings.", "DESIGN.md section 4 C07"),
+ "C08": C("exploration", "runtime monitoring: template bytes + reference SEC1/Base58Check/BIP350 classifiers as oracle for scriptpubkey() on positive and negative inputs",
+          "scriptpubkey() output compared with written-out templates for every valid (network, version, length) and key; every input the references classify as invalid must raise.", "DESIGN.md section 4 C08"),
+ "C09": C("exploration", "runtime monitoring: independent BIP32 implementation as oracle for derive_from_path/get_xpub/CKD*, path-composition and public/private commutation monitors, payload-mutation rejection",
+          "Every derived extended key string compared with the reference; each path also derived in two steps and publicly from the reference xpub; BIP32 invalid-key list and field mutations must be rejected.", "DESIGN.md section 4 C09"),
+ "C10": C("exploration", "runtime monitoring: reference BIP39 + pinned official word list + OpenSSL/manual PBKDF2 as oracles; full 2048-word last-word sweeps",
+          "Mnemonic/entropy round trips, exact accepted set among all 2048 last-word alternatives, word mutations, and seeds for NFKD-relevant passphrases compared with independent implementations.", "DESIGN.md section 4 C10"),
+ "C11": C("exploration", "runtime monitoring: BIP143 preimage computed from structured fields as byte-exact oracle; icontract postcondition on witness_message for indirect callers (send_tx)",
+          "witness_message output compared byte for byte for all (n_in,n_out) in 1..8, every index, six sighash types, SINGLE out of range, full-range fields.", "DESIGN.md section 4 C11"),
+ "C12": C("exploration", "runtime monitoring: BIP340 reference algorithms as oracle for sign (exact bytes) and verify (verdict) under 26 mutation classes incl. length variants; recorded secrets.token_bytes for omitted aux",
+          "Signatures compared with the BIP340 default-signing output; verify verdict compared with the reference on valid triples and bit/length/range mutations; BIP test vectors as fixed corpus.", "DESIGN.md section 4 C12"),
+ "C13": C("exploration", "runtime monitoring: own opcode table + reference assembler/disassembler (insists on minimal pushes) as oracle; exhaustive data lengths 1..600, all m-of-n, all defined opcodes; icontract postcondition on script()",
+          "Assembler output compared with reference bytes, disassembly modulo aliases, witness stacks with CompactSize, every template builder disassembled by the reference and compared with the intended list.", "DESIGN.md section 4 C13"),
+ "C14": C("exploration", "runtime monitoring: strict SEC1 reference decoder, reference Base58Check/WIF table and OpenSSL PEM reader/writer as oracles",
+          "SEC1 accept set compared with the reference on 27 candidate classes and all lengths 0..70; WIF over 3 networks x 8 types x suffixes and corruptions; PEM interop with OpenSSL in both directions.", "DESIGN.md section 4 C14"),
+ "C15": C("exploration", "runtime monitoring: reference merkle tree / subsidy / BIP34 CScript encoder / block parser as oracles; mine_block driven end-to-end against a scripted RPC with the submitted block as observation",
+          "merkle_root for every list length, coinbase for every height 0..70000 on both schedules plus boundaries, script/reward limits, commitment, block round trips, and the block mine_block submits.", "DESIGN.md section 4 C15"),
+ "C16": C("exploration", "runtime monitoring: exact-satoshi conservation oracle + reference Script interpreter (own legacy SignatureHash, BIP143, BIP66, OpenSSL ECDSA) deciding every input of the transactions send_tx builds against a scripted UTXO source; known-findings classifier",
+          "Every transaction returned by send_tx is parsed independently; inputs/outputs/fee checked in exact arithmetic and every input executed against the spent scriptPubKey; structural causes classify refutations (legacy multi-input / non-ALL signing is a recorded known finding).", "DESIGN.md section 4 C16"),
+ "C17": C("fault_enumeration", "runtime monitoring with fault injection: scripted socket enumerating recv() chunk schedules (all header/payload transitions, compositions), every single-bit flip and EOF at every offset with a reference receiver as oracle and a logical termination bound; codec round trips vs reference codecs",
+          "recv_msg executed under every (so-far, chunk) transition and enumerated faults; verdicts from a reference receiver; termination decided by a bound of 64 empty reads, not by time.", "DESIGN.md section 4 C17"),
+ "C18": C("exploration", "runtime monitoring of real threads under a serialising scheduler (container-level and sys.monitoring line-level scheduling points): DFS enumeration of all schedules in the small scope, random + PCT sampling, free-running stress; offline exactly-once / attribution / per-sender FIFO / reply checker over unambiguous histories",
+          "Real Node + PeerThreads; every explored schedule is a real execution, replayable from its choice list; the small scope is enumerated exhaustively.", "DESIGN.md section 4 C18"),
+ "C19": C("fault_enumeration", "runtime monitoring with crash injection: sequential store model as oracle after every batch, audit-hook append-only monitor, fork+_exit at every open/write/close step (buffered / write-through / torn), strace SIGKILL at the k-th syscall on the blk files",
+          "Directory compared file by file with the model after each batch; after every injected crash the files must be a boundary-consistent prefix of the record stream with earlier batches intact.", "DESIGN.md section 4 C19"),
+ "C20": C("exploration", "runtime monitoring: bits.__main__.main() run in-process with use-site monitors (arguments of read_bytes/write_bytes/set_log_level/wif_encode/to_bitcoin_address/rpc_method) against a three-layer reference rule over the full flag x json x toml product read off the real parser; lossless-conversion monitor",
+          "Value in effect observed where it is used, for every (subcommand, option) pair with a use site, over the complete configuration product and three value rotations; conversions over all short byte strings and nine format pairs.", "DESIGN.md section 4 C20"),
 }
 
 NOT_YET = "check not built yet in this round (work in progress; see DESIGN.md §4 for the planned monitor)"
